@@ -26,7 +26,8 @@
 //!  Header {dom:{short,light}, tlen, ncars, amin, sched}
 //!  Build  {ok,msg,cls}                                                         cls = "internal" | "descriptive"
 //!  Table  {ok,msg,cls,toy, sp:[[o,vceil]..], end, pts:[[o,lfloor,lceil,tfloor]..]}   after every extend_path
-//!  Steps  {s:[[i,t,o,vfloor,vlfloor,vlceil,vtfloor]..]}                       chunks of consecutive steps
+//!  Steps  {s:[[i,t,o,vfloor,vlfloor,vlceil,vtfloor,idx_curr]..]}              chunks of consecutive steps
+//!  Ctrl   {ok,msg,cls,exact,s:[[k,2*o,v,idx_curr,fric,limit,target]..]}        a Controller.tla run in model units
 //!  Stage  {}                                                                   a new leg starts (stop-and-go)
 //!  stepcap{steps}
 //!  Final  {ok,msg,steps,end,o,v}                                              end of the harness-driven run
@@ -264,12 +265,30 @@ fn table_event(sim: &SpeedLimitTrainSim, ok: bool, msg: &str) -> Value {
             json!([qi(o, OS), q_floor(l, VS), q_ceil(l, VS), q_floor(t, VS)])
         })
         .collect();
-    json!({"ev":"Table","ok":ok,"msg":msg,"cls":cls,"toy":false,"sp":sp,"end":qi(sim.path_tpc.offset_end().value, OS),"pts":pts})
+    // the bincode shortcut of idx_curr1 must agree with the JSON projection
+    let ic_json = bp["idx_curr"].as_u64().map(|x| x + 1).unwrap_or(0);
+    let ic_ok = pts.is_empty() || ic_json == idx_curr1(sim);
+    json!({"ev":"Table","ok":ok,"msg":msg,"cls":cls,"toy":false,"sp":sp,"end":qi(sim.path_tpc.offset_end().value, OS),"pts":pts,
+           "ic":ic_json,"ic_ok":ic_ok})
+}
+/// `BrakingPoints.idx_curr` (private; 1-based here, like the TLA+ side; 0 = unavailable). Serialising the whole
+/// table to JSON at every step would dominate the run, so the index is read from the tail of the bincode image
+/// (struct { points: Vec<_>, idx_curr: usize }: the last 8 bytes); `table_event` cross-checks it against the JSON.
+fn idx_curr1(sim: &SpeedLimitTrainSim) -> u64 {
+    match bincode::serialize(&sim.braking_points) {
+        Ok(b) if b.len() >= 16 => {
+            let mut a = [0u8; 8];
+            a.copy_from_slice(&b[b.len() - 8..]);
+            u64::from_le_bytes(a) + 1
+        }
+        _ => 0,
+    }
 }
 fn step_rec(sim: &SpeedLimitTrainSim, i: usize) -> Value {
     let s = &sim.state;
     json!([i, qi(s.time.value, TS), qi(s.offset.value, OS), q_floor(s.speed.value, VS),
-           q_floor(s.speed_limit.value, VS), q_ceil(s.speed_limit.value, VS), q_floor(s.speed_target.value, VS)])
+           q_floor(s.speed_limit.value, VS), q_ceil(s.speed_limit.value, VS), q_floor(s.speed_target.value, VS),
+           idx_curr1(sim)])
 }
 struct Steps {
     buf: Vec<Value>,
@@ -464,7 +483,9 @@ fn exec_run(desc: &Value, tr: &mut Tracer) -> anyhow::Result<()> {
     let sched = gs(desc, "sched").to_string();
     let tl = train_len(desc);
     tr.emit(json!({"ev":"Header","dom":{"short":dom_short(desc),"light":dom_light(desc)},
-                   "tlen":qi(tl, OS),"ncars":ncars(desc),"amin":qi(a_min(desc), 1024.0),"sched":sched}));
+                   "tlen":qi(tl, OS),"ncars":ncars(desc),"amin":qi(a_min(desc), 1024.0),"sched":sched,
+                   // look-ahead of calc_speeds: ramp_up_time (s) * ramp_up_coeff (tenths; 0.6 in TrainSimBuilder)
+                   "ramp":desc.get("ramp").and_then(|x| x.as_i64()).unwrap_or(0),"coef10":6}));
     let net = match build::network(&chained(desc)) {
         Ok(n) => n,
         Err(e) => {
@@ -709,7 +730,7 @@ fn exec_table(desc: &Value, tr: &mut Tracer) -> anyhow::Result<()> {
     sim.state.mass_rot = uc::KG * 0.0;
     sim.fric_brake.force_max = uc::N * 2.0;
     let route: Vec<LinkIdx> = (1..=n as u32).map(LinkIdx::new).collect();
-    tr.emit(json!({"ev":"Header","dom":{"short":false,"light":false},"tlen":qi(1.0, OS),"ncars":1,"amin":0,"sched":"table"}));
+    tr.emit(json!({"ev":"Header","dom":{"short":false,"light":false},"tlen":qi(1.0, OS),"ncars":1,"amin":0,"sched":"table","ramp":0,"coef10":6}));
     match sim.extend_path(net.as_ref(), &route) {
         Ok(()) => {
             let mut ev = table_event(&sim, true, "");
@@ -725,9 +746,94 @@ fn exec_table(desc: &Value, tr: &mut Tracer) -> anyhow::Result<()> {
     Ok(())
 }
 
+// ---------------------------------------------------------------------------------------------
+// Controller.tla runs on the real SpeedLimitTrainSim: 1 kg train, friction brake 2 - r N, constant resistance r N
+// (bearing resistance), brake build-up `ramp` s with ramp_up_coeff 1/2, dt = 1 s; before every step() the consist's
+// force limit is set to the scripted value (Locomotive::set_force_max on the first unit, 0 N on the others).
+// {"kind":"ctrl","zones":[[o,v]..],"end":E,"r":0|1,"ramp":0|2,"pol":[F..],"n":steps}
+
+fn exec_ctrl(desc: &Value, tr: &mut Tracer) -> anyhow::Result<()> {
+    use altrios_core::consist::locomotive::locomotive_model::ForceMaxSideEffect;
+    let zones = ga(desc, "zones");
+    let end = gi(desc, "end");
+    let r = gi(desc, "r");
+    let ramp = gi(desc, "ramp");
+    let pol: Vec<f64> = ga(desc, "pol").iter().map(|x| x.as_f64().unwrap()).collect();
+    let nsteps = gi(desc, "n") as usize;
+    anyhow::ensure!(r >= 0 && !pol.is_empty(), "a ctrl case needs r >= 0 and a policy");
+    let links: Vec<Value> = zones
+        .iter()
+        .enumerate()
+        .map(|(k, z)| {
+            let o = z[0].as_i64().unwrap();
+            let e = if k + 1 < zones.len() { zones[k + 1][0].as_i64().unwrap() } else { end };
+            json!({"len": e - o, "head": true, "params": [], "rs": [[0, e - o, z[1]]]})
+        })
+        .collect();
+    let net = build::network(&chained(&json!({"links": links})))?;
+    let n = zones.len();
+    // bearing resistance = per axle * 4 axles * 1 car = r newtons
+    let car = json!({"n":1,"car_len":1.0,"car_mass":1.0,"vmax":64.0,"braking_ratio":0.0,"bearing": r as f64 / 4.0});
+    let tc = build::train_config(&car)?;
+    let mut con = Consist::default();
+    con.set_save_interval(None);
+    let tsb = TrainSimBuilder::new("t".into(), tc, con, Some("A".into()), Some("B".into()), None);
+    let lm = build::location_map(&[1], &[n as u32]);
+    let mut sim = tsb.make_speed_limit_train_sim(&lm, None, None, None)?;
+    sim.state.mass_static = uc::KG * 1.0;
+    sim.state.mass_rot = uc::KG * 0.0;
+    sim.fric_brake.force_max = uc::N * (2 - r) as f64;
+    sim.fric_brake.ramp_up_time = uc::S * ramp as f64;
+    sim.fric_brake.ramp_up_coeff = uc::R * 0.5;
+    let route: Vec<LinkIdx> = (1..=n as u32).map(LinkIdx::new).collect();
+    tr.emit(json!({"ev":"Header","dom":{"short":false,"light":false},"tlen":qi(1.0, OS),"ncars":1,"amin":0,"sched":"ctrl",
+                   "ramp":ramp,"coef10":5}));
+    if let Err(e) = sim.extend_path(net.as_ref(), &route) {
+        let (m, c) = errpair(&e);
+        let mut ev = table_event(&sim, false, &m);
+        ev["toy"] = json!(true);
+        ev["cls"] = json!(c);
+        tr.emit(ev);
+        return Ok(());
+    }
+    let mut ev = table_event(&sim, true, "");
+    ev["toy"] = json!(true);
+    tr.emit(ev);
+    let mut steps = Steps::new();
+    steps.push(tr, &sim);
+    let mut q = Q::new();
+    let mut rows: Vec<Value> = vec![];
+    let mut res: (bool, String, &str) = (true, String::new(), "descriptive");
+    for k in 0..nsteps {
+        let f = pol[k % pol.len()];
+        for (i, loco) in sim.loco_con.loco_vec.iter_mut().enumerate() {
+            loco.set_force_max(uc::N * if i == 0 { f } else { 0.0 }, ForceMaxSideEffect::SetMuToNone)?;
+        }
+        match sim.step() {
+            Ok(()) => {
+                steps.push(tr, &sim);
+                let st = &sim.state;
+                rows.push(json!([k + 1, q.q(st.offset.value, 2.0), q.q(st.speed.value, 1.0), idx_curr1(&sim),
+                                 q.q(sim.fric_brake.state.force.value, 1.0), q.q(st.speed_limit.value, 1.0),
+                                 q.q(st.speed_target.value, 1.0)]));
+            }
+            Err(e) => {
+                let (m, c) = errpair(&e);
+                res = (false, m, c);
+                break;
+            }
+        }
+    }
+    steps.flush(tr);
+    // the run in the model's own units: [k, 2*offset, speed, idx_curr, friction force, limit, target]
+    tr.emit(json!({"ev":"Ctrl","ok":res.0,"msg":res.1,"cls":res.2,"exact":q.exact && !q.overflow,"s":rows}));
+    Ok(())
+}
+
 fn exec(desc: &Value, tr: &mut Tracer) -> anyhow::Result<()> {
     match desc.get("kind").and_then(|x| x.as_str()) {
         Some("table") => exec_table(desc, tr),
+        Some("ctrl") => exec_ctrl(desc, tr),
         _ => exec_run(desc, tr),
     }
 }
